@@ -16,7 +16,7 @@ PROPERTY = "C04"
 LEVEL = "model_checking"
 ASSUMPTIONS = ["DC1 (integral JSON floats for Int/ID) and DC2 (flat list for nested list) accepted either way"]
 BUDGET_S = {"quick": 120, "thorough": 1800}
-LEVELS = {"quick": 2, "thorough": 3}
+LEVELS = {"quick": 3, "thorough": 3}
 
 
 def build_schema(level):
